@@ -69,8 +69,9 @@ theorem tie_defaultConfig (iv : Str) (fs : ProjFS) (ctx : Cfg.ProjectContext)
     simp only [foldl_appendExisting]
     cases Gen.supportedConfigs.any fun f => (fs f).isSome <;> simp
   · by_cases htoml : (ctx.config_format == "toml".toList) = true
-    · by_cases hpy : (ctx.config_filepath == "pyproject.toml".toList) = true
-      · simp only [hcfg, htoml, hpy, if_true, Bool.not_true, Bool.not_false, Bool.and_false, Bool.false_eq_true, if_false,
+    · -- the pyproject test may be written `==` or `!=` (with the branches exchanged)
+      by_cases hpy : (ctx.config_filepath == "pyproject.toml".toList) = true
+      · simp only [hcfg, htoml, hpy, bne, if_true, Bool.not_true, Bool.not_false, Bool.and_false, Bool.false_eq_true, if_false,
           exists_worldOf, tagScope_default]
         rw [format_tmpl_eq _ _ Gen.baseTmplPyproject (by decide +kernel)]
         unfold Py.format
@@ -80,7 +81,8 @@ theorem tie_defaultConfig (iv : Str) (fs : ProjFS) (ctx : Cfg.ProjectContext)
           append_right_eq (List.foldl _ _ _) _ Gen.fallbackStrToml (by decide +kernel)]
         simp only [foldl_appendExisting]
         cases Gen.supportedConfigs.any fun f => (fs f).isSome <;> simp
-      · simp only [hcfg, htoml, hpy, if_true, Bool.not_true, Bool.not_false, Bool.and_false, Bool.false_eq_true, if_false,
+      · have hpy' : (ctx.config_filepath == "pyproject.toml".toList) = false := by simpa using hpy
+        simp only [hcfg, htoml, hpy', bne, if_true, Bool.not_true, Bool.not_false, Bool.and_false, Bool.false_eq_true, if_false,
           exists_worldOf, tagScope_default]
         rw [format_tmpl_eq _ _ Gen.baseTmplToml (by decide +kernel)]
         unfold Py.format
